@@ -69,6 +69,13 @@ func main() {
 		}
 	}
 	rtBatch(r, rng)
+	// op pairs on one MAC in every order (SetDHCPv4IPOffer x DHCPv4Update x frame x purge), client online / offline / unknown
+	for i := 0; i < 432; i += 1 + rng.Intn(2) {
+		ops := g.OfferPairHistory(i)
+		ips, macs := tables.Candidates(cfg, ops)
+		r.Do("t4", append([]string{cfg.Tok(), "0", tables.IPsTok(ips), tables.MacsTok(macs)}, ops...)...)
+		r.Stat("class.offer-pairs", 1)
+	}
 	// the address-class domain and the NICInfo domain: every class of IPv4 / IPv6 source x {router, own, client, new MAC} x
 	// {IP frame, ARP / NDP}, under the standard configuration and under every NICInfo variant
 	{
